@@ -42,6 +42,21 @@ func withHints(assump []*Term, goal *Term) ([]*Term, *Term) {
 	for _, s := range skolems {
 		seen[s] = true
 	}
+	if z := IntLit(0); !seen[z] {
+		seen[z] = true
+		cands = append(cands, z)
+	}
+	for _, s := range skolems {
+		if s.Sort == IntSort {
+			for _, d := range []int64{1, -1} {
+				t := Add(s, IntLit(d))
+				if !seen[t] {
+					seen[t] = true
+					cands = append(cands, t)
+				}
+			}
+		}
+	}
 	var walk func(t *Term)
 	visited := map[*Term]bool{}
 	mentions := func(t *Term) bool {
@@ -72,7 +87,7 @@ func withHints(assump []*Term, goal *Term) ([]*Term, *Term) {
 			return
 		}
 		visited[t] = true
-		if t.Op == "select" && t.Args[1].Sort.Kind != SRef && !seen[t.Args[1]] && mentions(t.Args[1]) && len(cands) < 10 {
+		if false && t.Op == "select" && t.Args[1].Sort.Kind != SRef && !seen[t.Args[1]] && mentions(t.Args[1]) && len(cands) < 10 {
 			seen[t.Args[1]] = true
 			cands = append(cands, t.Args[1])
 		}
@@ -81,6 +96,33 @@ func withHints(assump []*Term, goal *Term) ([]*Term, *Term) {
 		}
 	}
 	walk(goal)
+	// ground Ref-sorted select indices (heap addresses) of the goal
+	var goalAddr []*Term
+	{
+		vis := map[*Term]bool{}
+		var w func(t *Term)
+		w = func(t *Term) {
+			if vis[t] || t.Op == "forall" || t.Op == "exists" {
+				return
+			}
+			vis[t] = true
+			if t.Op == "select" && t.Args[1].Sort == RefSort && !t.Args[1].hasBound && len(goalAddr) < 24 {
+				dup := false
+				for _, g := range goalAddr {
+					if g == t.Args[1] {
+						dup = true
+					}
+				}
+				if !dup {
+					goalAddr = append(goalAddr, t.Args[1])
+				}
+			}
+			for _, a := range t.Args {
+				w(a)
+			}
+		}
+		w(goal)
+	}
 	// all ground integer select indices of the goal
 	var goalIdx []*Term
 	{
@@ -116,6 +158,57 @@ func withHints(assump []*Term, goal *Term) ([]*Term, *Term) {
 		if a.Op == "=>" && a.Args[1].Op == "forall" {
 			guard, q = a.Args[0], a.Args[1]
 		}
+		if q.Op == "forall" && len(q.Bound) == 2 {
+			b0, b1 := q.Bound[0], q.Bound[1]
+			cnt := 0
+			// bounds of the quantifier's own guard are instantiation candidates too (e.g. j <= size)
+			local := append([]*Term(nil), cands...)
+			for _, t := range guardBounds(q.Args[0]) {
+				dup := false
+				for _, c := range local {
+					if c == t {
+						dup = true
+					}
+				}
+				if !dup && len(local) < 14 {
+					local = append(local, t)
+				}
+			}
+			isSk := func(t *Term) bool {
+				for _, s := range skolems {
+					if t == s || (len(t.Args) == 2 && (t.Args[0] == s || t.Args[1] == s)) {
+						return true
+					}
+				}
+				return false
+			}
+			for _, c0 := range local {
+				if c0.Sort != b0.Sort {
+					continue
+				}
+				for _, c1 := range local {
+					if len(skolems) > 0 && !isSk(c0) && !isSk(c1) {
+						continue
+					}
+					if len(skolems) == 2 && skolems[0].Sort == skolems[1].Sort {
+						// positional: first variable from the first skolem, second from the second
+						if derivedFrom(c0, skolems[1]) || derivedFrom(c1, skolems[0]) {
+							continue
+						}
+					}
+					if c1.Sort != b1.Sort || cnt >= 36 {
+						continue
+					}
+					cnt++
+					inst := Substitute(q.Args[0], map[string]*Term{b0.Name: c0, b1.Name: c1})
+					if guard != nil {
+						inst = Implies(guard, inst)
+					}
+					out = append(out, inst)
+				}
+			}
+			continue
+		}
 		if q.Op != "forall" || len(q.Bound) != 1 {
 			continue
 		}
@@ -124,6 +217,11 @@ func withHints(assump []*Term, goal *Term) ([]*Term, *Term) {
 		for _, c := range cands {
 			if c.Sort == b.Sort {
 				insts[c] = true
+			}
+		}
+		if b.Sort == RefSort && usesDirectSelect(q.Args[0], b) {
+			for _, g := range goalAddr {
+				insts[g] = true
 			}
 		}
 		// offset-aware matching: a select index of the form (v + rest) in the body is matched against
@@ -144,6 +242,64 @@ func withHints(assump []*Term, goal *Term) ([]*Term, *Term) {
 				inst = Implies(guard, inst)
 			}
 			out = append(out, inst)
+		}
+	}
+	// further rounds: select indices that appeared in the instances of the previous round
+	known := map[*Term]bool{}
+	for _, g := range goalIdx {
+		known[g] = true
+	}
+	from := n
+	for round := 0; round < 3; round++ {
+		var idx2 []*Term
+		vis := map[*Term]bool{}
+		var w func(t *Term)
+		w = func(t *Term) {
+			if vis[t] || t.Op == "forall" || t.Op == "exists" {
+				return
+			}
+			vis[t] = true
+			if t.Op == "select" && t.Args[1].Sort == IntSort && !t.Args[1].hasBound && !known[t.Args[1]] && len(idx2) < 10 && t.Args[1].size < 120 {
+				known[t.Args[1]] = true
+				idx2 = append(idx2, t.Args[1])
+			}
+			for _, a := range t.Args {
+				w(a)
+			}
+		}
+		for _, t := range out[from:] {
+			w(t)
+		}
+		if len(idx2) == 0 {
+			break
+		}
+		from = len(out)
+		m := len(out)
+		for i := 0; i < n; i++ {
+			a := out[i]
+			var guard *Term
+			q := a
+			if a.Op == "=>" && a.Args[1].Op == "forall" {
+				guard, q = a.Args[0], a.Args[1]
+			}
+			if q.Op != "forall" || len(q.Bound) != 1 || q.Bound[0].Sort != IntSort {
+				continue
+			}
+			b := q.Bound[0]
+			cnt := 0
+			for _, rest := range linearRests(q.Args[0], b) {
+				for _, g := range idx2 {
+					if cnt >= 20 || len(out)-m > 300 {
+						break
+					}
+					cnt++
+					inst := Substitute(q.Args[0], map[string]*Term{b.Name: Sub(g, rest)})
+					if guard != nil {
+						inst = Implies(guard, inst)
+					}
+					out = append(out, inst)
+				}
+			}
 		}
 	}
 	return out, goal
@@ -188,7 +344,7 @@ func linearRests(body, v *Term) []*Term {
 		}
 		seen[t] = true
 		if t.Op == "select" && t.Args[1].Sort == IntSort && has(t.Args[1]) {
-			if r, ok := lin(t.Args[1]); ok && !(r.Op == "int" && r.Int.Sign() == 0) {
+			if r, ok := lin(t.Args[1]); ok {
 				dup := false
 				for _, x := range res {
 					if x == r {
@@ -221,4 +377,59 @@ func mentionsBound(t, v *Term) bool {
 		}
 	}
 	return false
+}
+
+
+// guardBounds returns the bound-free terms that bound variables are compared with in the guard of
+// an implication body (v < T, v <= T, T <= v ...).
+func guardBounds(body *Term) []*Term {
+	var res []*Term
+	if body.Op != "=>" {
+		return nil
+	}
+	var walk func(t *Term)
+	walk = func(t *Term) {
+		switch t.Op {
+		case "and":
+			for _, a := range t.Args {
+				walk(a)
+			}
+		case "<", "<=":
+			for k := 0; k < 2; k++ {
+				if t.Args[k].Op == "bound" && !t.Args[1-k].hasBound && t.Args[1-k].Op != "int" {
+					res = append(res, t.Args[1-k])
+				}
+			}
+		}
+	}
+	walk(body.Args[0])
+	return res
+}
+
+
+// usesDirectSelect reports whether body contains select(A, v) with the bound variable itself as index.
+func usesDirectSelect(body, v *Term) bool {
+	found := false
+	seen := map[*Term]bool{}
+	var walk func(t *Term)
+	walk = func(t *Term) {
+		if found || seen[t] || !t.hasBound {
+			return
+		}
+		seen[t] = true
+		if t.Op == "select" && t.Args[1] == v {
+			found = true
+			return
+		}
+		for _, a := range t.Args {
+			walk(a)
+		}
+	}
+	walk(body)
+	return found
+}
+
+
+func derivedFrom(t, sk *Term) bool {
+	return t == sk || (len(t.Args) == 2 && (t.Args[0] == sk || t.Args[1] == sk))
 }
